@@ -69,6 +69,40 @@ theorem keys_only_if_verified (k : Bytes × Bytes) (h : (connect C t cr cl r).ke
     exact ⟨outer, pub, enc, shared, plain, tlv, sig, h1, h2, h3, hx, h4, h5, h6, h7, h9, h.symm,
       getPairingData_ok_no_error h1, hack⟩
 
+/-- **C06, callers that never derive keys** (`AirPlayV1.setup`, `AirPlayV1.play_url`, any user of
+    `PairVerifyProcedure.verify_credentials()` that takes its return as the verdict): pair-verify
+    itself succeeds only if the reply proves the paired identity — the signature is checked
+    before `verify_credentials` returns, not when keys are derived. -/
+theorem verify_succeeds_only_if_verified (shared : Bytes)
+    (h : (verifyCredentials C t cr cl r).2 = .ok shared) :
+    ∃ outer pub enc plain tlv sig,
+      getPairingData t r.pd = .ok outer ∧
+      outer.lookup tagPublicKey = some pub ∧
+      outer.lookup tagEncryptedData = some enc ∧
+      C.x25519 cl.ownPriv pub = some shared ∧
+      C.aeadOpen (C.hkdf pvSalt pvInfo shared) msg02 enc = some plain ∧
+      readTlv plain = some tlv ∧
+      tlv.lookup tagIdentifier = some cr.atvId ∧
+      tlv.lookup tagSignature = some sig ∧
+      C.edVerify cr.ltpk (pub ++ cr.atvId ++ cl.ownPub) sig = true := by
+  obtain ⟨_, pub, enc, ⟨outer, h1, h2, h3⟩, hx, plain, tlv, sig, h4, h5, h6, h7, _, h9⟩ :=
+    verifyCredentials_ok h
+  exact ⟨outer, pub, enc, plain, tlv, sig, h1, h2, h3, hx, h4, h5, h6, h7, h9⟩
+
+/-- … and any other reply makes `verify_credentials()` itself raise (a check failure; the
+    exchange of M3 is not even attempted: no `sendM3` in the sequence of actions). -/
+theorem verify_rejects_other_replies (h : ¬ Accepted C t cr cl r) :
+    ∃ e, (verifyCredentials C t cr cl r).2 = .error e ∧ e.isCheckFailure = true ∧
+      ∀ ev ∈ (verifyCredentials C t cr cl r).1, ev.isSendM3 = false := by
+  cases hv : (verifyCredentials C t cr cl r).2 with
+  | ok shared =>
+    obtain ⟨_, pub, enc, hc, hp⟩ := verifyCredentials_ok hv
+    exact absurd ⟨pub, enc, shared, hc, hp⟩ h
+  | error e =>
+    rcases verifyCredentials_err hv with ⟨h1, _, _⟩ | ⟨_, hacc⟩
+    · exact ⟨e, rfl, h1, no_m3_unless_accepted h⟩
+    · exact absurd hacc h
+
 /-- the same, through the declarative predicate used by the other theorems -/
 theorem keys_only_if_accepted (k : Bytes × Bytes) (h : (connect C t cr cl r).keys = some k) :
     Accepted C t cr cl r ∧ AckOk t r := by
